@@ -88,7 +88,12 @@ structure InMsg where
   zeroed : Option Bytes
   deriving Repr, Inhabited
 
-def hasUsmError (vbs : List VarBind) : Bool := vbs.any fun vb => Gen.usmErrorOids.any (·.1 == vb.1)
+/-- `validate_usm_message`: the PDU classes it looks into (generated from its `isinstance` guard;
+    the empty list stands for "every PDU") and the usmStats objects whose presence is an error -/
+def usmErrorPdu (tag : Nat) : Bool := Gen.usmErrorPduTags.isEmpty || Gen.usmErrorPduTags.contains tag
+
+def hasUsmError (p : Spec.Pdu) : Bool :=
+  usmErrorPdu p.tag && p.varbinds.any fun vb => Gen.usmErrorOids.any (·.1 == vb.1)
 
 def authFlag (m : Spec.V3Msg) : Bool := m.flags % 2 == 1
 def privFlag (m : Spec.V3Msg) : Bool := m.flags / 2 % 2 == 1
@@ -156,7 +161,7 @@ def processIncoming (cr : Crypto) (c : Creds) (im : InMsg) : Except Err Spec.Sco
       | .error e => .error e
       | .ok s =>
         -- validate_usm_message
-        if hasUsmError s.pdu.varbinds then .error .snmpError
+        if hasUsmError s.pdu then .error .snmpError
         else match checkLevel c im.m with
           | .error e => .error e
           | .ok _ => .ok s
